@@ -3521,3 +3521,31 @@ impl InconsistentTopicStatus {
         status
     }
 }
+
+/// Verification hook: the request/offered compatibility check done by a writer for a discovered reader.
+#[cfg(dust_dds_verif)]
+pub fn verif_incompatible_qos_for_writer(
+    writer_qos: &DataWriterQos,
+    discovered_reader_data: &SubscriptionBuiltinTopicData,
+    publisher_qos: &PublisherQos,
+) -> Vec<QosPolicyId> {
+    get_discovered_reader_incompatible_qos_policy_list(
+        writer_qos,
+        discovered_reader_data,
+        publisher_qos,
+    )
+}
+
+/// Verification hook: the request/offered compatibility check done by a reader for a discovered writer.
+#[cfg(dust_dds_verif)]
+pub fn verif_incompatible_qos_for_reader(
+    data_reader: &DataReaderEntity<crate::rtps::stateful_reader::RtpsStatefulReader>,
+    publication_builtin_topic_data: &PublicationBuiltinTopicData,
+    subscriber_qos: &SubscriberQos,
+) -> Vec<QosPolicyId> {
+    get_discovered_writer_incompatible_qos_policy_list(
+        data_reader,
+        publication_builtin_topic_data,
+        subscriber_qos,
+    )
+}
